@@ -13,6 +13,44 @@ import ast
 
 from harness.common import facts as F
 
+# Every source function whose whole statement-level control flow (try/finally/except, with, if, loops, return,
+# raise, the order of calls, pushes and pops) is regenerated into Gen/Facts_C13.v on every run.  Leaves (which
+# opaque call, its arguments) are abstracted to `Call`; generators marked (inlined) are translated inline at
+# their `with` sites.  Kept in sync with what translate() actually emits by facts() (problem if they differ).
+TRANSLATED = [
+    'pyramid/request.py:CallbackMethodsMixin._process_response_callbacks',
+    'pyramid/request.py:CallbackMethodsMixin._process_finished_callbacks',
+    'pyramid/router.py:Router.finish_request',
+    'pyramid/router.py:Router.invoke_request',
+    'pyramid/router.py:Router.request_context',
+    'pyramid/router.py:default_execution_policy',
+    'pyramid/router.py:Router.__call__',
+    'pyramid/router.py:Router.invoke_subrequest',
+    'pyramid/threadlocal.py:RequestContext.begin',
+    'pyramid/threadlocal.py:RequestContext.__enter__',
+    'pyramid/threadlocal.py:RequestContext.end',
+    'pyramid/threadlocal.py:RequestContext.__exit__',
+    'pyramid/threadlocal.py:RequestContext.__init__',
+    'pyramid/view.py:ViewMethodsMixin.invoke_exception_view',
+    'pyramid/util.py:hide_attrs',                                              # (inlined)
+    'pyramid/tweens.py:_error_handler',
+    'pyramid/tweens.py:excview_tween_factory.excview_tween',
+    'pyramid/config/__init__.py:Configurator.begin',
+    'pyramid/config/__init__.py:Configurator.end',
+    'pyramid/config/__init__.py:Configurator.include',
+    'pyramid/config/__init__.py:Configurator.make_wsgi_app',
+    'pyramid/config/__init__.py:Configurator.__enter__',
+    'pyramid/config/__init__.py:Configurator.__exit__',
+    'pyramid/config/actions.py:ActionConfiguratorMixin.commit',
+    'pyramid/config/actions.py:ActionConfiguratorMixin.action',
+    'pyramid/config/routes.py:RoutesConfiguratorMixin.route_prefix_context',  # (inlined)
+    'pyramid/scripting.py:get_root',
+    'pyramid/scripting.py:get_root.closer',
+    'pyramid/scripting.py:prepare',
+    'pyramid/scripting.py:prepare.closer',
+    'pyramid/scripting.py:AppEnvironment.__exit__',
+]
+
 # ---- marks (Definition mk_* in Facts) -----------------------------------
 MARKS = {
     'invoke': 1,        # Router.invoke_request entered
@@ -194,6 +232,7 @@ class Translator:
         self.stack = []
         self._line = None       # first line of the statement being translated
         self.opaque = {}        # key -> lines of statements that contain an opaque (may-raise) call
+        self.inlined = set()    # generator context managers translated inline
 
     # -- plumbing
     def mod(self, rel):
@@ -289,6 +328,7 @@ class Translator:
         if any(isinstance(n, ast.Return) for n in own):
             self.bad(key, fn, 'return inside a context manager generator')
         self.stack.append(key)
+        self.inlined.add(key)
         r = self.block(key, fn.body, ('tail', body_stmt))
         self.stack.pop()
         return r
@@ -546,6 +586,9 @@ def translate(src):
     lines.append('')
     for name in sorted(P):
         lines.append('Definition %s : stmt := %s.' % (name, coq(P[name])))
+    got = set(skel) | set('%s:%s' % k for k in tr.inlined)
+    if got != set(TRANSLATED):
+        tr.problems.append('translator: TRANSLATED is out of date: %s' % sorted(got ^ set(TRANSLATED)))
     return {'coq': '\n'.join(lines) + '\n', 'skeletons': skel, 'problems': tr.problems,
             'opaque_lines': {k: sorted(v) for k, v in tr.opaque.items()},
             'programs': {n: pretty(P[n]) for n in P}}
